@@ -654,6 +654,18 @@ func (e *Env) evalAddr(x ast.Expr) (ref string, t types.Type, ghostSort string) 
 		return "null", nil, ""
 	}
 	if call, ok := x.(*ast.CallExpr); ok {
+		if id, ok := call.Fun.(*ast.Ident); ok && id.Name == "gref" && len(call.Args) >= 2 {
+			b := e.eval(call.Args[0])
+			i := e.eval(call.Args[1])
+			if e.err != nil {
+				return "null", nil, ""
+			}
+			if b.K != KRef || i.K != KInt {
+				e.fail("gref(base, index): base must be a pointer, index an integer")
+				return "null", nil, ""
+			}
+			return sx("elt", sx("fld", b.S, "1010"), i.S), nil, "Ref"
+		}
 		if id, ok := call.Fun.(*ast.Ident); ok && (id.Name == "file" || id.Name == "fexists") && len(call.Args) == 1 {
 			p := e.eval(call.Args[0])
 			if e.err != nil {
@@ -690,8 +702,10 @@ func (e *Env) evalIndex(n *ast.IndexExpr) Val {
 		return e.r.load(e.st, sx("elt", b.Bas, sAdd(b.Off, i.S)), et, "idx")
 	case KRef:
 		if b.T != nil {
-			if at, ok := derefType(b.T).Underlying().(*types.Array); ok {
-				return e.r.load(e.st, sx("elt", b.S, i.S), at.Elem(), "idx")
+			if dt := derefType(b.T); dt != nil {
+				if at, ok := dt.Underlying().(*types.Array); ok {
+					return e.r.load(e.st, sx("elt", b.S, i.S), at.Elem(), "idx")
+				}
 			}
 			if mt, ok := b.T.Underlying().(*types.Map); ok {
 				return e.r.load(e.st, sx("elt", b.S, e.r.mapKey(i)), mt.Elem(), "mapval")
@@ -1015,6 +1029,16 @@ func (e *Env) evalCall(n *ast.CallExpr) Val {
 			base = e.old.alloc
 		}
 		return boolVal(sx(">=", sx("rootid", ref), base))
+	case "allocated":
+		// allocated(x): x is nil or points into an object that exists in the current state
+		v := arg(0)
+		ref := v.S
+		if v.K == KSlice {
+			ref = v.Bas
+		} else if v.K == KIface {
+			ref = v.Pay
+		}
+		return boolVal(sx("<", sx("rootid", ref), e.st.alloc))
 	case "typeis":
 		if !need(2) {
 			return boolVal("false")
@@ -1110,6 +1134,40 @@ func (e *Env) evalCall(n *ast.CallExpr) Val {
 			pats = append(pats, s)
 		}
 		return boolVal("(! " + b.S + " :pattern (" + strings.Join(pats, " ") + "))")
+	case "asptr":
+		// asptr(ref, "*T"): a ghost reference viewed as a typed pointer
+		if !need(2) {
+			return boolVal("false")
+		}
+		v := arg(0)
+		lit, ok := n.Args[1].(*ast.BasicLit)
+		if !ok || v.K != KRef {
+			return e.fail("asptr(ref, \"*T\")")
+		}
+		name, _ := strconv.Unquote(lit.Value)
+		t := e.r.W.lookupType(name)
+		if t == nil {
+			return e.fail("asptr: unknown type %s", name)
+		}
+		return refVal(v.S, t)
+	case "gref":
+		// gref(base, i[, "T"]): ghost family of references indexed by an integer, attached to an object
+		ref, _, _ := e.evalAddr(n)
+		if e.err != nil {
+			return boolVal("false")
+		}
+		var t types.Type
+		if len(n.Args) == 3 {
+			if lit, ok := n.Args[2].(*ast.BasicLit); ok {
+				name, _ := strconv.Unquote(lit.Value)
+				t = e.r.W.lookupType(name)
+				if t == nil {
+					return e.fail("gref: unknown type %s", name)
+				}
+			}
+		}
+		v := refVal(e.r.bind(e.st, sx("select", e.st.heap["R"], ref), "gref", "Ref"), t)
+		return v
 	case "file", "fexists":
 		// ghost file system: one cell per path under the ghost root (content / existence)
 		ref, _, gs := e.evalAddr(n)
